@@ -26,7 +26,7 @@ def load(contracts=True):
     logging.getLogger("matplotlib").setLevel(logging.ERROR)
     logging.getLogger("matplotlib.font_manager").setLevel(logging.CRITICAL)
     import numpy as np
-    np.seterr(all="ignore")
+    np.seterr(all="raise" if os.environ.get("LCVERIF_NP_RAISE") == "1" else "ignore")
     import localcider
     where = os.path.realpath(localcider.__file__)
     if not where.startswith(REPO + os.sep):
